@@ -374,12 +374,25 @@ fn enum_make(_tier: Tier, i: u64) -> Case {
     }
 }
 
+/// libFuzzer entry / from-bytes generator: bring a decoded case into the domain of `strategy`
+pub fn fuzz_domain(c: &mut Case) -> bool {
+    c.g.sanitize(1, 11, 36, None);
+    c.k = 1 + c.k % 5;
+    c.hkind %= 3;
+    c.hvals.resize(12, 0);
+    c.cost %= 4;
+    true
+}
+pub fn bytes_strategy(_tier: Tier) -> BoxedStrategy<Case> {
+    decoded_strategy(fuzz_domain)
+}
+
 pub fn property() -> Property {
     Property {
         id: "C10",
         rule: "random weighted multigraphs (1..=8 nodes quick, weights 0..=9 incl. zero edges/cycles, parallel edges, loops) in Graph / StableGraph+MatrixGraph with vacancies / GraphMap / Csr, cost types u32,i32,f64,f32 (floats are exact multiples of 0.25); dijkstra (no goal / goal), astar (single goal and goal sets; zero, exact and random admissible-inconsistent heuristics) and k_shortest_path (k 1..=5) compared with fixpoint distances and a dynamic programme over walks; non-trivial = some node unreachable and some direct edge beaten by a longer path; distinct by case fingerprint; bounded-exhaustive sub-check: every directed / undirected graph on 1..=3 nodes (loops included) with every assignment of the costs {0,1,5} to its edges x 6 encodings x source x goal",
         assumptions: &["k-th walk cost oracle considers walks of at most k*n+1 edges (sufficient for non-negative costs)"],
         both_profiles: false,
-        subs: vec![sub("shortest/nonneg", 4_000_000, 60_000_000, strategy, run), sub_enum("shortest/all-small-weighted-graphs", enum_count, enum_make, run)],
+        subs: vec![sub_fuzz("shortest/nonneg", 4_000_000, 60_000_000, strategy, run, fuzz_domain), sub("shortest/nonneg-from-bytes", 600_000, 10_000_000, bytes_strategy, run), sub_enum("shortest/all-small-weighted-graphs", enum_count, enum_make, run)],
     }
 }
